@@ -1,7 +1,7 @@
 (* C12 — uniform, bounded, ternary, fixed-weight samplers: exact support and bias bounds.  Statements only.
    A probability under a uniform tape is a preimage count. *)
 From Coq Require Import ZArith List Arith.
-From NTT Require Import Small Samplers SamplersExec Reservoir ReservoirSlots.
+From NTT Require Import Small Samplers SamplersExec Reservoir ReservoirSlots HwtStore.
 Local Open Scope Z_scope.
 
 (* uniform: residue r is produced by exactly the b-bit words r and (if it fits) r+p: every residue reachable, ratio <= 2 *)
@@ -43,6 +43,23 @@ Theorem C12_slot_step_is_model_update : forall h hit pos k,
   (if Z.of_nat pos <? Z.of_nat h then set_nth (map Z.of_nat hit) (Z.to_nat (Z.of_nat pos)) (Z.of_nat k) else map Z.of_nat hit).
 Proof. exact slot_step_Z. Qed.
 Print Assumptions C12_slot_step_is_model_update.
+
+(* the store stage: with the loop's slot-array invariant (h distinct indices below n), every row of the stored polynomial has exactly h
+   non-zero residues, at exactly the slot positions, each 1 or p-1, and every row is ONE signed polynomial in {-1,0,1} reduced mod its p *)
+Theorem C12_hwt_store : forall n h hitn signs p, Slots h n hitn -> (h <= length signs)%nat -> 2 < p ->
+  let pos := sort (map Z.of_nat hitn) in
+  hwt_row n p pos signs = map (fun i => hwt_val pos signs i mod p) (seq 0 n) /\
+  Forall (fun v => 0 <= v < p) (hwt_row n p pos signs) /\
+  length (filter (fun i => negb (hwt_val pos signs i =? 0)) (seq 0 n)) = h /\
+  (forall i, hwt_val pos signs i <> 0 <-> In i hitn).
+Proof. exact hwt_final. Qed.
+Print Assumptions C12_hwt_store.
+(* ... and these rows are what the executable sampler model stores *)
+Theorem C12_hwt_store_is_model : forall n ps h tape hit tape',
+  reservoir (length tape + 1) h (map Z.of_nat (seq h (n - h))) (map Z.of_nat (seq 0 h)) nil tape = Some (hit, tape') ->
+  set_hwt n ps h tape = Some (concat (map (fun p => hwt_row n p (sort hit) (words_of 8 h tape')) ps)).
+Proof. exact set_hwt_rows. Qed.
+Print Assumptions C12_hwt_store_is_model.
 
 (* the rejection step maps accepted words uniformly onto [0,k]: index r has exactly rs preimages among the accepted words *)
 Theorem C12_draw_preimages : forall k1 r, 0 < k1 <= W64 -> 0 <= r < k1 ->
